@@ -317,6 +317,13 @@ pub fn alone(env: &Env, f: &F) -> Result<Gcv, String> {
 /// contains no sub-formula at all; only the wild-card terminals keep their occurrence counters,
 /// because wild-cards are served *only* through the cache.
 pub fn nocache(env: &Env, f: &F) -> Result<Gcv, String> {
+    nocache_with(env, f, None)
+}
+
+/// As [nocache]; `self_loops`: the set handed to the evaluator as "states with a self-loop"
+/// (`None` = the steady states, as the library's entry points do; `Some(empty)` = the
+/// self-loop-free variant).
+pub fn nocache_with(env: &Env, f: &F, self_loops: Option<Gcv>) -> Result<Gcv, String> {
     run_prelude();
     let g = &env.graph;
     let tree = parse_and_minimize_extended_formula(g.symbolic_context(), &f.render())?;
@@ -334,7 +341,10 @@ pub fn nocache(env: &Env, f: &F) -> Result<Gcv, String> {
     }
     let mut ec = EvalContext::new(dup);
     ec.extend_context_with_wild_cards(&props, &doms);
-    let steady = compute_steady_states(g);
+    let steady = match self_loops {
+        Some(s) => s,
+        None => compute_steady_states(g),
+    };
     let mut cb = |_: &Gcv, _: &str| {};
     Ok(eval_node(tree, g, &mut ec, &steady, &mut cb))
 }
